@@ -100,7 +100,7 @@ def validate(case):
                 raise Invalid()
             gnames.add(sec["name"])
             for b, w in sec["members"]:
-                if b & w or not R.is_contiguous(w) or (case["platform"] == "ios" and w == R.ALL1):
+                if b & w or (case["platform"] == "ios" and (w == R.ALL1 or not R.is_contiguous(w))) or len(R.nc_bits(w)) > 4:
                     raise Invalid()
         elif sec["s"] == "intf":
             if not sec.get("name") or " " in sec["name"]:
@@ -309,6 +309,8 @@ def config_st(draw, tier):
         members = []
         for _ in range(draw(st.integers(1, 4))):
             w = (1 << (32 - draw(st.integers(8, 32)))) - 1
+            if platform == "nxos" and draw(st.sampled_from(range(5))) == 0:
+                w = draw(G.wildmask_st(3, nc_only=True))  # NX-OS members may be non-contiguous wildcards
             members.append([draw(G.base_st()) & ~w & R.ALL1, w])
         sections.append({"s": "group", "name": gname, "members": members, "ind": draw(st.integers(1, 4)),
                          "desc": draw(st.sampled_from(["", "", "some group"])), "style": draw(st.integers(0, 3)),
